@@ -139,9 +139,12 @@ def build(spec, tag=''):
                     await rt.new_gate(('s', json.dumps(nk), k))
                 if [nk, k] in spec['store_faults']:
                     raise ps.make_exc('EA', -2, k)
-                if spec['store'] == 'writeonce':
-                    if str(nk) in rt.saved:
-                        raise ArtifactAlreadyExists(str(nk))
+                # write-once: the id is taken when save() is CALLED (as a store that writes synchronously does, and as the
+                # model's StWriteOnce does: k = number of earlier save calls for this id in this run); the gate only delays
+                # the answer. Deciding at completion instead made two overlapping saves of one id fail in release order,
+                # which the model does not represent (a thorough-tier false alarm, DESIGN 10).
+                if spec['store'] == 'writeonce' and k > 0:
+                    raise ArtifactAlreadyExists(str(nk))
                 rt.saved[str(nk)] = ps.canon(data)
 
             async def load(self, node_id):
